@@ -90,6 +90,7 @@ def run(ctx):
     ctx.rule("R7", "the replacement text a front end carries is the inserted_text of make_edit's Edit, converted only by identity conversions")
     r6(ctx)
     r7(ctx)
+    r7b(ctx)
 
     # ---------------- R1 ---------------------------------------------------------------------
     n_inst = 0
@@ -306,6 +307,49 @@ def diag_typed(f, o):
     if o.kind == "call":
         return "Diagnostic" in f.locals[o.ref.dest[0]]
     return False
+
+
+def r7b(ctx):
+    """downstream of the carriers: what --json prints as `replacement` is Diff.replacement, what the language server sends as the
+    TextEdit's new text is RewriteData.fixed — as they are"""
+    from ..query import identity_flow, field_path
+    prog = ctx.prog
+    n = 0
+    # MatchJSON.replacement
+    for f in prog.fns.values():
+        if f.crate != "ast_grep" or f.is_closure and False:
+            continue
+        for bi in sorted(f.live_blocks):
+            for st in f.blocks[bi]["s"]:
+                if st[0] == "A" and st[1][1] and any(str(p_).startswith(".replacement|ast_grep::print::json_print::MatchJSON") for p_ in st[1][1]) and st[2][0] in ("agg", "use"):
+                    ops = st[2][2] if st[2][0] == "agg" else [st[2][1]]
+                    if st[2][0] == "agg" and st[2][1].get("variant") == "None":
+                        continue
+                    n += 1
+                    terms, foreign = [], []
+                    for op in ops:
+                        t_, f_ = identity_flow(prog, f, op, lambda g, o: o.kind in ("param", "local") and "replacement" in field_path(o.proj) and "Diff" in " ".join(map(str, o.proj)))
+                        terms += t_
+                        foreign += f_
+                    ok = bool(terms) and not foreign
+                    ctx.ob("R7", "MatchJSON.replacement in %s" % f.id, ok, "= Diff.replacement" if ok else
+                           "the `replacement` printed by --json is not Diff.replacement as it is (passes through %s)" % sorted(set(foreign)), where=f.loc(st[3]))
+    # lsp TextEdit new_text
+    for c in prog.who_calls(r"lsp_types::TextEdit::new$"):
+        f = c.fn
+        n += 1
+        def term(g, o):
+            return "fixed" in field_path(o.proj) and "RewriteData" in " ".join(map(str, o.proj))
+        terms, foreign = identity_flow(prog, f, c.args[1], term)
+        # the value may have travelled through a tuple built from RewriteData.fixed in the same function family
+        if not terms and foreign:
+            fam_txt = "".join(repr(b["s"]) for g in prog.family(prog.fns.get(f.root) or f) for b in g.blocks) if f.is_closure else ""
+            if ".fixed|ast_grep_lsp::utils::RewriteData" in fam_txt and all(x.startswith("parameter") for x in foreign):
+                terms, foreign = [True], []
+        ok = bool(terms) and not foreign
+        ctx.ob("R7", "TextEdit text in %s#%d" % (f.id, sum(1 for x in prog.who_calls(r"lsp_types::TextEdit::new$") if x.fn is f and x.bb < c.bb)), ok,
+               "= RewriteData.fixed" if ok else "the quick-fix text is not RewriteData.fixed as it is (passes through %s)" % sorted(set(foreign)), where=f.loc(c.line))
+    ctx.floor("R7", "downstream uses of the carried replacement text", n, 3)
 
 
 def short_trait(t):
